@@ -69,7 +69,7 @@ type observation struct {
 	helloLen    int
 }
 
-var helloRec, innerRec, hello2Rec, inner2Rec, hrrRec, fragRec []byte
+var helloRec, innerRec, hello2Rec, inner2Rec, hrrRec, fragRec, rejectedRec []byte
 var firstRecLen int
 var theKey echx.KeyPair
 
@@ -80,6 +80,15 @@ func init() {
 		InnerBase: echx.StdInnerBase(), Padding: make([]byte, 4), EphLabel: "c10"}.Build()
 	helloRec = b.Outer.Record()
 	fragRec = tlsref.Fragment(0x0301, b.Outer.Msg(), len(b.Outer.Msg())/2)
+	{
+		rej := b.Outer.Clone()
+		for i, e := range rej.Exts {
+			if e.Type == tlsref.ExtECH {
+				rej.Exts[i] = tlsref.ECHInner()
+			}
+		}
+		rejectedRec = rej.Record()
+	}
 	firstRecLen = 5 + len(b.Outer.Msg())/2
 	innerRec = tlsref.Record(22, 0x0303, b.Expected.Msg())
 	// a retried hello (after HelloRetryRequest) sealed with the same HPKE context
@@ -144,6 +153,9 @@ func run(sc scenario, choose vs.Chooser, traceOn bool) (*observation, *vs.Sched,
 		case "bad-record":
 			// a complete first record that is not a handshake record: NewConn refuses it at once and then WRITES an alert
 			t.Feed(tlsref.Record(23, 0x0303, []byte("not a hello")))
+		case "rejected-hello":
+			// a complete, well-framed ClientHello that the PROCESSING refuses (ECH type "inner" sent to a server with keys)
+			t.Feed(rejectedRec)
 		case "never":
 		}
 		// canceller
@@ -245,12 +257,12 @@ func monitor(sc scenario, ob *observation, s *vs.Sched, t *vnet.Conn) (key, what
 	case "deadline5-cancelled-at-1":
 		ctxEnds, ctxEndAt = true, 1*unit
 	}
-	if sc.Hello == "bad-record" {
+	if sc.Hello == "bad-record" || sc.Hello == "rejected-hello" {
 		// the refusal itself does not depend on the context; but the alert write may block (client not reading), and then the
 		// context is what bounds NewConn
 		switch {
 		case ob.newConnErr == nil:
-			return "newconn-accepts-bad-record", "NewConn succeeded on a first record of type 23"
+			return "newconn-accepts-bad-record", "NewConn succeeded on a first record it must refuse (" + sc.Hello + ")"
 		case ctxEnds && ob.returnedAt > ctxEndAt:
 			return "newconn-late", fmt.Sprintf("the context ended at %v but NewConn (blocked writing its alert to a client that does not read) returned at %v", ctxEndAt, ob.returnedAt)
 		case !sc.BlockedWrites && ob.returnedAt > 0:
@@ -351,6 +363,14 @@ func scenarios() []scenario {
 				continue // nothing can ever end the alert write: NewConn legitimately blocks
 			}
 			out = append(out, scenario{Hello: "bad-record", Cancel: c, Keys: true, BlockedWrites: blocked})
+			out = append(out, scenario{Hello: "rejected-hello", Cancel: c, Keys: true, BlockedWrites: blocked})
+		}
+	}
+	// a complete, valid hello and a client that does not read: if the context ends just as the hello completes NewConn may
+	// still refuse (and write an alert): that write, too, is bounded by the context
+	for _, h := range []string{"buffered", "late", "two-records"} {
+		for _, c := range []string{"t0", "t1", "before-call", "deadline2"} {
+			out = append(out, scenario{Hello: h, Cancel: c, Keys: true, BlockedWrites: true})
 		}
 	}
 	return out
@@ -495,7 +515,7 @@ func Run(r *ev.Run, replay string) {
 		return
 	}
 	b := bound(r.Tier)
-	r.Rule(fmt.Sprintf("E3 stateless exploration of the real NewConn (sources rewritten into scheduler shims at check time) in virtual time: scenarios = hello {already buffered, arriving at t=1, in two fragments at t=0 and t=2, in two TLS records at t=0 and t=2, only the first of two records, never, a complete record that is not a handshake record (refused; the alert is written to a client that reads or never reads)} x context {never ends, already cancelled before the call, cancelled by another thread at t=0/1/3, cancelled by the caller right after NewConn returned, deadline at t=2, deadline at t=5 cancelled at t=1} x keys {yes,no} x {plain use, HelloRetryRequest + second hello (in one record, or in two records cut after 3 / 100 bytes) after the return, caller's own transport deadline set before the call}; threads = caller (NewConn, then Read/Write on the result), canceller, client, and the watcher NewConn spawns; ALL schedules with at most %d deviations (preemption / non-canonical thread pick, non-first ready select case, timer order). Monitors: NewConn fails only if the context ended before the hello was complete and then no later than that instant; after a successful return no deadline call starts, no deadline is left set (a deadline the caller had set before is still exactly that), and the caller's I/O succeeds. distinct = distinct scenarios", b))
+	r.Rule(fmt.Sprintf("E3 stateless exploration of the real NewConn (sources rewritten into scheduler shims at check time) in virtual time: scenarios = hello {already buffered, arriving at t=1, in two fragments at t=0 and t=2, in two TLS records at t=0 and t=2, only the first of two records, never, a complete record that is not a handshake record / a complete ClientHello that the processing refuses (the alert is written to a client that reads or never reads)} x context {never ends, already cancelled before the call, cancelled by another thread at t=0/1/3, cancelled by the caller right after NewConn returned, deadline at t=2, deadline at t=5 cancelled at t=1} x keys {yes,no} x {plain use, HelloRetryRequest + second hello (in one record, or in two records cut after 3 / 100 bytes) after the return, caller's own transport deadline set before the call}; threads = caller (NewConn, then Read/Write on the result), canceller, client, and the watcher NewConn spawns; ALL schedules with at most %d deviations (preemption / non-canonical thread pick, non-first ready select case, timer order). Monitors: NewConn fails only if the context ended before the hello was complete and then no later than that instant; after a successful return no deadline call starts, no deadline is left set (a deadline the caller had set before is still exactly that), and the caller's I/O succeeds. distinct = distinct scenarios", b))
 	r.Assume("computation takes zero virtual time; sequentially consistent memory at synchronisation granularity", "the transport is a scheduler-aware fake whose Read honours deadlines")
 	explore(r, scenarios(), b, "c10")
 }
